@@ -23,6 +23,12 @@ package expect
 //@   safety C19
 //@   requires iop != nil && s != nil && *s != nil && out != nil && *out != nil && ctx != nil
 //@   requires (*s).ParsePatterns ==> forall j int :: 0 <= j && j < len(iop.OutputSet) ==> is(iop.OutputSet[j].Pattern, string)
+// The countdown starts at the number of expected (non-inverted) outputs of the
+// step, whatever state earlier steps or runs left them in: every one of them
+// has to be matched by a line of THIS step (nc(j) = the count before output j).
+//@   loop 0 ghostfn nc(rangeindex + 1) = need
+//@   loop 0 invariant[C19] countzero: rangeindex < 0 ==> need == 0
+//@   loop 0 invariant[C19] countstep: rangeindex >= 0 ==> need == nc(rangeindex) + (iop.OutputSet[rangeindex].Inverted ? 0 : 1)
 //@   loop 1 invariant (*s).ParsePatterns ==> forall j int :: 0 <= j && j < len(iop.OutputSet) ==> is(iop.OutputSet[j].Pattern, string)
 //@   loop 2 invariant (*s).ParsePatterns ==> forall j int :: 0 <= j && j < len(iop.OutputSet) ==> is(iop.OutputSet[j].Pattern, string)
 //@   loop 2 ghostfn nb(rangeindex + 1) = need
